@@ -1223,8 +1223,24 @@ def run_case(ctx, g):
         shutil.rmtree(work, ignore_errors=True)
 
 
+def _signature(v):
+    t = v.get("tags") or {}
+    return (v["relation"], t.get("op"), t.get("mode"), t.get("variant"), t.get("detail"), t.get("sel"),
+            t.get("what"), t.get("mixed_dtype"), t.get("spec"))
+
+
 def post(ctx):
     ctx.rule = RULE
+    # only five replays are printed: put one representative of every distinct kind of failure first
+    seen, first, rest = set(), [], []
+    for v in ctx.violations:
+        sig = _signature(v)
+        (rest if sig in seen else first).append(v)
+        seen.add(sig)
+    ctx.violations[:] = first + rest
+    ctx.extra["distinct_failure_kinds"] = [dict(zip(("relation", "op", "mode", "variant", "detail", "sel", "what",
+                                                     "mixed_dtype", "spec"), s)) for s in
+                                           sorted(seen, key=lambda s: tuple(str(x) for x in s))]
     ctx.extra["exhaustive"] = False
     ctx.extra["tolerances"] = ("unconverted values bit-identical; converted cells within 2 ulp (precision of the stored "
                                "column) of the exact rational product; HDF5 epoch exact, FITS epoch within 2 ulp of its "
